@@ -15,6 +15,8 @@ true`, and the argument-contract theorems `contract_f`) are in `Bee2V/Gen/C09Obl
   check), at every write to the designated output the authentication automaton `vstate` of the
   trace so far is `passed`: the most recent verification call precedes the write, its RESULT has been
   tested (directly, or through `code` with no assignment in between) and the test said success.
+* `errorSticky_sound` — on every path: after `code` has been assigned an error constant or tested `!= ERR_OK`,
+  it is never assigned ERR_OK or a fresh value again and no output is written (memSetZero / memWipe excepted).
 * `classes_complete` — the class constants seen on any path are among the syntactic `Cfg.classes`.
 * `releaseSafe_sound` — on every path that does not return a value known to be ERR_OK, every
   write to the designated output is followed by a zeroisation of it (in particular: paths that
@@ -70,6 +72,18 @@ theorem verifyFirst_sound (d : Nat) (c : Cfg) (h : verifyFirst d c = true) :
   subst hf
   exact verifyFirst_of_fold d tr hp
 
+/-- **Soundness of `errorSticky`.** -/
+theorem errorSticky_sound (c : Cfg) (h : errorSticky c = true) :
+    ∀ (tr : List Ev) (s' : St) (r : CS), Exec c St.init tr s' (.ret r) → ErrorSticky tr := by
+  intro tr s' r hx
+  simp only [errorSticky, Bool.and_eq_true, List.all_eq_true] at h
+  have hm := reach_sound hx [St.init] h.1 (by simp)
+  have hp := h.2 (s', r) hm
+  simp only [Bool.and_eq_true, Bool.not_eq_true'] at hp
+  have hf := exec_fold hx
+  subst hf
+  exact errorSticky_of_fold tr St.init hp.1 hp.2
+
 /-- Every error-class constant that a path returns or assigns to `code` (event `cls n`) occurs
 syntactically in the skeleton: `Cfg.classes` over-approximates what the function can produce by
 itself, which is what the `class_<f>_<E>` obligations (documented class E is producible) rely on. -/
@@ -95,6 +109,11 @@ example : allocFailSafe (Cfg.seqs [.atom [.setnull 0], .loop (Cfg.seqs [.resize 
     .atom [.close 0], .ret .ok]) = false := by decide
 /-- the result of an allocating err_t callee is discarded -/
 example : allocFailSafe (Cfg.seqs [.atom [.call 0, .calleeFail 0], .ret .ok]) = false := by decide
+/-- a recorded error is overwritten by a later `code = cond ? ERR_OK : ERR_X` / an output is written after it /
+the usual `code = ERR_X; … zeroise; return code` is fine -/
+example : errorSticky (Cfg.seqs [.ite 0 (.atom [.code .bad]) .skip, .atom [.code .unk], .ret .code]) = false := by decide
+example : errorSticky (Cfg.seqs [.ite 0 (.atom [.code .bad]) .skip, .atom [.wr 0], .ret .code]) = false := by decide
+example : errorSticky (Cfg.seqs [.atom [.wr 0], .ite 0 (Cfg.seqs [.atom [.zero 0], .atom [.code .bad]]) .skip, .ret .code]) = true := by decide
 /-- verify, then write (DWP shape) / write, verify, zeroise on failure (KWP shape) / no zeroisation -/
 example : releaseSafe 0 (Cfg.seqs [.ite 0 (.ret (.err 511)) .skip, .atom [.wr 0], .ret .ok]) = true := by decide
 example : releaseSafe 0 (Cfg.seqs [.atom [.wr 0], .ite 0 (Cfg.seqs [.atom [.zero 0], .ret (.err 513)]) .skip, .ret .ok]) = true := by decide
